@@ -1,6 +1,7 @@
 import BSModel.Proofs.Entities
 import BSModel.Proofs.Html5
 import BSModel.Gen.Entities
+import BSModel.Gen.EntitiesFormatters
 /-! # C09 — entity substitution and attribute quoting are reversible for every string
 
 `T : Tbl` is the data of `EntitySubstitution` (the alternatives parsed back from the two compiled patterns, the three
@@ -233,13 +234,70 @@ theorem html5_not_reversible_runaway :
 
 /-! ## the registered formatters -/
 
-/-- `Formatter.substitute` / `attribute_value` of a registered formatter whose function is `substitute_xml` (code 1) or
-    `substitute_html` (code 2), outside `cdata_containing_tags`: the text read back is the original. -/
+/-- The only strings `Formatter.substitute` leaves alone are those whose parent is one of the formatter's
+    `cdata_containing_tags`; the shipped configuration names exactly `script` and `style` for HTML and nothing for XML:
+    `HTML_DEFAULTS`, a `Formatter` built with the option left at `None` (both languages), and every registered formatter. -/
+theorem cdata_defaults_live :
+    BS.Gen.htmlDefaultCdata = [ofS "script", ofS "style"] ∧
+    BS.Gen.htmlFormatterCdata = [ofS "script", ofS "style"] ∧ BS.Gen.xmlFormatterCdata = [] ∧
+    BS.Gen.htmlRegistry.all (fun e => e.cdata == [ofS "script", ofS "style"]) = true ∧
+    BS.Gen.xmlRegistry.all (fun e => e.cdata == []) = true := by decide
+
+/-- A string whose parent is one of the configured `cdata_containing_tags` is returned untouched. -/
+theorem substitute_exempt (X : List (Nat × PStr)) (T : Tbl) (e : RegEntry) (t s : PStr) (h : t ∈ e.cdata) :
+    formatterSubstitute T X e (some t) s = s := by
+  unfold formatterSubstitute
+  split
+  · rfl
+  · simp [h]
+
+/-- Any other parent makes no difference: the string is treated like a plain `str` (an attribute value), i.e. the
+    formatter's function is applied. -/
+theorem substitute_not_exempt (X : List (Nat × PStr)) (T : Tbl) (e : RegEntry) (t s : PStr) (h : t ∉ e.cdata) :
+    formatterSubstitute T X e (some t) s = formatterSubstitute T X e none s := by
+  unfold formatterSubstitute
+  split
+  · rfl
+  · simp [h]
+
+/-- `cdata_containing_tags`: an explicit value is what the formatter uses — whatever it is; `None` means the HTML
+    defaults for HTML and no tag for XML. -/
+theorem cdata_option (d : List PStr) (xml : Bool) (fn : Nat) (v : List PStr) :
+    (mkFormatter d xml fn (some v)).cdata = v ∧ (mkFormatter d false fn none).cdata = d ∧
+      (mkFormatter d true fn none).cdata = [] := ⟨rfl, rfl, rfl⟩
+
+/-- With an explicitly empty `cdata_containing_tags` every string is substituted, `<script>`/`<style>` content included. -/
+theorem empty_cdata_substitutes_everything (X : List (Nat × PStr)) (T : Tbl) (d : List PStr) (xml : Bool) (fn : Nat)
+    (p : Option PStr) (s : PStr) :
+    formatterSubstitute T X (mkFormatter d xml fn (some [])) p s =
+      formatterSubstitute T X (mkFormatter d xml fn (some [])) none s := by
+  cases p with
+  | none => rfl
+  | some t => exact substitute_not_exempt X T _ t s (by simp [mkFormatter, defaultCdata])
+
+example : formatterSubstitute BS.Gen.htmlTable BS.Gen.xmlTable
+    (mkFormatter BS.Gen.htmlDefaultCdata false 1 (some [])) (some (ofS "script")) (ofS "a<b") = ofS "a&lt;b" := by
+  decide +kernel
+example : formatterSubstitute BS.Gen.htmlTable BS.Gen.xmlTable
+    (mkFormatter BS.Gen.htmlDefaultCdata false 1 none) (some (ofS "script")) (ofS "a<b") = ofS "a<b" := by
+  decide +kernel
+example : formatterSubstitute BS.Gen.htmlTable BS.Gen.xmlTable
+    (mkFormatter BS.Gen.htmlDefaultCdata false 1 none) (some (ofS "textarea")) (ofS "a<b") = ofS "a&lt;b" := by
+  decide +kernel
+
+/-- `Formatter.substitute` / `attribute_value` of a formatter whose function is `substitute_xml` (code 1) or
+    `substitute_html` (code 2), for a plain `str` and for a string under **any** parent that is not one of the formatter's
+    `cdata_containing_tags`: the text read back is the original. -/
 theorem formatter_text_roundtrip (X : List (Nat × PStr)) (T : Tbl) (hx : XmlOK X T = true) (h : TblOK T = true)
-    (e : RegEntry) (he : e.fn = 1 ∨ e.fn = 2) (late : Bool) (s : PStr) :
-    readText T late 0 (formatterSubstitute T X e none s) = s := by
-  rcases he with he | he <;> simp only [formatterSubstitute, he, applyFn] <;> simp
-  · exact xml_text_roundtrip X T hx late s
-  · exact html_text_roundtrip T h late s
+    (e : RegEntry) (he : e.fn = 1 ∨ e.fn = 2) (p : Option PStr) (hp : ∀ t, p = some t → t ∉ e.cdata)
+    (late : Bool) (s : PStr) :
+    readText T late 0 (formatterSubstitute T X e p s) = s := by
+  have base : readText T late 0 (formatterSubstitute T X e none s) = s := by
+    rcases he with he | he <;> simp only [formatterSubstitute, he, applyFn] <;> simp
+    · exact xml_text_roundtrip X T hx late s
+    · exact html_text_roundtrip T h late s
+  cases p with
+  | none => exact base
+  | some t => rw [substitute_not_exempt X T e t s (hp t rfl)]; exact base
 
 end BS.Props.C09
